@@ -1,6 +1,7 @@
 package introspection
 
 import (
+	"encoding/json"
 	"strings"
 
 	"github.com/wundergraph/graphql-go-tools/v2/pkg/ast"
@@ -403,6 +404,16 @@ func (i *introspectionVisitor) deprecationReason(directiveRef int) (reason *stri
 	argValue, exists := i.definition.DirectiveArgumentValueByName(directiveRef, []byte(DeprecationReasonArgName))
 	if exists {
 		reasonContent := i.definition.ValueContentString(argValue)
+		if argValue.Kind == ast.ValueKindString {
+			// report the value of the string (escape sequences resolved, block string formatting applied),
+			// not its source text
+			if data, err := i.definition.ValueToJSON(argValue); err == nil {
+				var value string
+				if json.Unmarshal(data, &value) == nil {
+					reasonContent = value
+				}
+			}
+		}
 		return &reasonContent
 	}
 
